@@ -59,10 +59,11 @@ impl UpdateGenerator for MarkdownUpdateGenerator {
             match token {
                 MarkdownToken::Line(_, line) => updated.push_str(&line.assure_newline()),
                 MarkdownToken::DocumentConfig(config) => {
-                    let config = config.join_newline();
                     updated.push_str("---\n");
-                    updated.push_str(&config);
-                    updated.push_str("\n---\n");
+                    for (_, line) in &config {
+                        updated.push_str(&line.assure_newline());
+                    }
+                    updated.push_str("---\n");
                 }
                 MarkdownToken::VerbatimCodeBlock {
                     starting_line_number: _,
@@ -79,10 +80,12 @@ impl UpdateGenerator for MarkdownUpdateGenerator {
                     comment_lines,
                     code_lines,
                 } => {
-                    let config = if config_lines.is_empty() {
+                    // a configuration that holds nothing but white space is none
+                    let config_text = config_lines.join_newline();
+                    let config = if config_text.trim().is_empty() {
                         "".into()
                     } else {
-                        format!(" {{{}}}", config_lines.join_newline().trim_start())
+                        format!(" {{{}}}", config_text.trim_start())
                     };
 
                     // a code block without code holds no test, hence has no outcome
